@@ -39,12 +39,10 @@ MODEL = "model_of"
 # names of the builtins namespace that a poisoned module pre-binds (module attributes such as
 # __name__ are left alone: the class statement itself reads them)
 _KEEP = {"__name__", "__doc__", "__package__", "__loader__", "__spec__", "__debug__", "__builtins__"}
-# A module-level global called __dict__ is covered by the dedicated `repeat` family (finding K14):
-# CPython 3.12's specialised LOAD_ATTR for module attributes reads `module.__dict__` from the
-# module's own dict once the instruction is warm, so attrs' `sys.modules[...].__dict__` may get
-# that global instead of the namespace.  Whether the specialisation fires depends on the whole
-# history of the process, so the per-class families leave this one name alone.
-NO_POISON = {"__dict__"}
+# Since 8708354 attrs reads the defining module's namespace with vars(); a module-level global called
+# __dict__ is poisoned like every other name (and the `repeat` family keeps the fresh-interpreter
+# scenario of the old defect).  The harness itself never evaluates `module.__dict__` on such a module.
+NO_POISON = set()
 BUILTIN_NAMES = sorted(n for n in dir(builtins) if n not in _KEEP and all(32 <= ord(c) < 127 for c in n))
 
 HEADER = ("From Attrs Require Import Base Core.Attr Core.Init C17.Model C17.Corr.\n"
@@ -69,7 +67,10 @@ RULE = ("(a) seeded random class specifications (harness/initgen.py option space
         "/ linecache / recompilation of every generated method; (c') the cached-property __getattr__ "
         "wrapper; (d) histories of up to 6 same-module classes over qualnames K, K-1, K-2 with repeated "
         "and distinct bodies and garbage collection in between; (e) 2/4/8 threads defining same-qualname "
-        "classes with different bodies under sys.setswitchinterval(1e-6).  distinct = distinct case term; "
+        "classes with different bodies under sys.setswitchinterval(1e-6), 60% of them with a trace hook that "
+        "yields between the lines of _linecache_and_compile; (f) in a fresh interpreter 40 classes defined in ONE "
+        "module binding a global __dict__ (the defect fixed by 8708354) / a control set of other internal names.  "
+        "distinct = distinct case term; "
         "non-trivial = class with at least one field (a, b), at least two definitions (d, e)")
 EXTRA_TRUSTED = [
     "dis.get_instructions (LOAD_GLOBAL / LOAD_NAME / co_varnames) is how the harness learns which names the "
@@ -84,8 +85,9 @@ ASSUMPTIONS = [
     "nobody but attrs writes or deletes '<attrs generated ...>' keys of linecache.cache (linecache.checkcache "
     "keeps entries whose mtime is None; linecache.clearcache() would drop them)",
     "dict.setdefault on a str-keyed dict is atomic (one bytecode-level C call under the GIL)",
-    "field names of custom-repr / eq-key fields satisfy name_guard and no init alias equals a name the "
-    "generated __init__ uses (guard of theorem hermetic; violations are findings K13 / K9)",
+    "vars(sys.modules[m]) is the namespace of module m",
+    "no init alias equals a name the generated __init__ uses (guard of theorem hermetic; violations are "
+    "finding K9)",
 ]
 
 _uid = itertools.count(1)
@@ -93,8 +95,8 @@ _uid = itertools.count(1)
 # --------------------------------------------------------------------------------------
 # naming replica (tied to the Coq model by the hc_py_guard field of every CHerm case)
 
-PREFIXES = {"RFactory": "__attr_factory_", "RConverter": "__attr_converter_",
-            "RValidator": "__attr_validator_", "RField": "__attr_field_"}
+PREFIXES = {"RRepr": "__attr_repr_", "RKey": "__attr_key_", "RFactory": "__attr_factory_",
+            "RConverter": "__attr_converter_", "RValidator": "__attr_validator_", "RField": "__attr_field_"}
 ROLES = ["RRepr", "RKey", "RFactory", "RConverter", "RValidator", "RField"]
 FIXED = ["AttributeError", "BaseException", "NotImplemented", "__import__", "getattr", "hash", "id", "object",
          "_compat", "_config", "NOTHING", "attr_dict", "_cached_setattr_get",
@@ -104,6 +106,11 @@ PINNED = FIXED[:8]
 
 
 def helper_name(role, n):
+    return PREFIXES[role] + n
+
+
+def old_helper_name(role, n):
+    """The scheme before b8060e0 (still poisoned, so that a revert is seen)."""
     if role == "RRepr":
         return n + "_repr"
     if role == "RKey":
@@ -112,10 +119,7 @@ def helper_name(role, n):
 
 
 def name_guard(role, n):
-    if role == "RRepr":
-        return not any((n + "_").startswith(p) for p in PREFIXES.values())
-    if role == "RKey":
-        return not any(("_" + n + "_").startswith(p) for p in PREFIXES.values())
+    """Nothing is required of field names since all helpers are prefixed."""
     return True
 
 
@@ -891,6 +895,8 @@ def poison_name_set(tc0):
     for a in attr.fields(tc0.cls):
         for r in ROLES:
             names.add(helper_name(r, a.name))
+            names.add(old_helper_name(r, a.name))
+        names.add("__attr_" + a.name)
     return sorted(n for n in names if n.isidentifier() or True)
 
 
@@ -1086,6 +1092,8 @@ NAME_SETS = [
     ["compat", "config"], ["_compat", "_config"], ["hash", "id"],
     ["x", "x_repr", "_x_key", "factory_x"], ["repr", "key", "__attr_factory", "_attr_converter"],
     ["r", "__attr_factory_r", "__attr_factory_r_repr"], ["_x", "__y", "x_"],
+    ["x", "repr_x"], ["x", "key_x"], ["x", "__attr_repr_x"], ["x", "__attr_key_x"], ["repr_", "_x"], ["key_", "_x"],
+    ["repr", "key", "field", "factory"],
 ]
 
 
@@ -1663,8 +1671,49 @@ def _rerun(inp):
     if fam == "hist":
         return hist_case(inp["plan"])
     if fam == "thr":
-        return thr_case(inp["plan"])
+        # a race does not show on every execution: try the schedule a few times
+        c = None
+        for _ in range(8):
+            c = thr_case(inp["plan"])
+            sn = c.seen
+            pairs = set(zip(sn["scripts"], sn["files"]))
+            if (sn["hung_or_failed"] or not all(sn["own_source_ok"])
+                    or len({f for _, f in pairs}) != len(pairs) or len({x for x, _ in pairs}) != len(pairs)):
+                break
+        return c
     raise ValueError(fam)
+
+
+def F19_C17_repr_key_helper_collision():
+    """<n>_repr / _<n>_key used to collide with another field's __init__ helper (fixed by b8060e0)."""
+    try:
+        C = attr.make_class("C", {"__attr_factory": attr.ib(repr=lambda v: "custom<%r>" % (v,)),
+                                  "repr": attr.ib(factory=list)})
+        r = repr(C(1))
+    except TypeError as e:
+        return "custom repr of field __attr_factory replaced by the factory of field repr: %s" % e
+    if r != "C(__attr_factory=custom<1>, repr=[])":
+        return "custom repr of field __attr_factory not used: %r" % (r,)
+
+    @attr.s
+    class E:
+        _attr_converter_b = attr.ib(eq=str.lower)
+        b_key = attr.ib(converter=int, default="3")
+
+    try:
+        if not (E("A") == E("a")) or E("A") == E("b"):
+            return "eq key of field _attr_converter_b not used"
+    except ValueError as e:
+        return "eq key of field _attr_converter_b replaced by the converter of field b_key: %s" % e
+
+
+def F20_C17_module_dunder_dict():
+    """A module-level global __dict__ used to be merged instead of the namespace once CPython's specialised
+    module-attribute load was warm (fixed by 8708354).  Fresh interpreter: the effect depends on how warm
+    attrs' own bytecode is."""
+    c = repeat_case(["__dict__"])
+    if c.term != "(CProp true)":
+        return "classes defined in a module that binds a global __dict__ fail: %r" % (c.seen,)
 
 
 def corpus():
@@ -1681,7 +1730,12 @@ def corpus():
             except Exception as e:
                 return "reproducer raised %s: %s" % (type(e).__name__, e)
         return run
-    return [(k, wrap(f)) for k, f in m.ALL.items() if "_C17_" in k]
+    out = [(k, wrap(f)) for k, f in m.ALL.items() if "_C17_" in k]
+    have = {k for k, _ in out}
+    for f in (F19_C17_repr_key_helper_collision, F20_C17_module_dunder_dict):
+        if f.__name__ not in have:
+            out.append((f.__name__, wrap(f)))
+    return out
 
 
 def EXHAUSTIVE(tier):
